@@ -107,6 +107,92 @@ var osFuncs = []string{
 
 type funcKey struct{ dir, name string }
 
+var osMutating = map[string]bool{"CreateTemp": true, "OpenFile": true, "WriteFile": true, "Rename": true, "Remove": true, "Create": true, "Truncate": true, "RemoveAll": true}
+var osClosureNames = map[string]bool{"CreateTemp": true, "OpenFile": true, "WriteFile": true, "ReadFile": true, "Rename": true, "Remove": true, "Open": true, "MkdirAll": true, "Stat": true}
+
+// osCalleeClosure: names (funcName form) of the functions of the package in absDir that are reachable from an
+// R2 function through calls within the package and contain a mutating os call themselves.
+func osCalleeClosure(absDir, dir string, roots map[funcKey]bool) []string {
+	ents, err := os.ReadDir(absDir)
+	if err != nil {
+		return nil
+	}
+	decls := map[string]*ast.FuncDecl{}
+	byMethod := map[string][]string{}
+	for _, e := range ents {
+		name := e.Name()
+		if e.IsDir() || !strings.HasSuffix(name, ".go") || strings.HasSuffix(name, "_test.go") || strings.HasPrefix(name, "verif_") {
+			continue
+		}
+		f, err := parser.ParseFile(token.NewFileSet(), filepath.Join(absDir, name), nil, 0)
+		if err != nil {
+			continue
+		}
+		for _, d := range f.Decls {
+			if fd, ok := d.(*ast.FuncDecl); ok && fd.Body != nil {
+				n := funcName(fd)
+				decls[n] = fd
+				if i := strings.Index(n, "."); i > 0 {
+					byMethod[n[i+1:]] = append(byMethod[n[i+1:]], n)
+				}
+			}
+		}
+	}
+	seen := map[string]bool{}
+	var queue []string
+	for k := range roots {
+		if k.dir == dir && decls[k.name] != nil {
+			seen[k.name] = true
+			queue = append(queue, k.name)
+		}
+	}
+	sort.Strings(queue)
+	var out []string
+	for len(queue) > 0 {
+		n := queue[0]
+		queue = queue[1:]
+		ast.Inspect(decls[n].Body, func(x ast.Node) bool {
+			ce, ok := x.(*ast.CallExpr)
+			if !ok {
+				return true
+			}
+			var cands []string
+			switch fn := ce.Fun.(type) {
+			case *ast.Ident:
+				cands = []string{fn.Name}
+			case *ast.SelectorExpr:
+				if ms := byMethod[fn.Sel.Name]; len(ms) == 1 {
+					cands = ms
+				}
+			}
+			for _, c := range cands {
+				if decls[c] != nil && !seen[c] {
+					seen[c] = true
+					queue = append(queue, c)
+				}
+			}
+			return true
+		})
+	}
+	for n := range seen {
+		if roots[funcKey{dir, n}] {
+			continue
+		}
+		mut := false
+		ast.Inspect(decls[n].Body, func(x ast.Node) bool {
+			if se, ok := x.(*ast.SelectorExpr); ok && isPkgIdent(se.X, "os") && osMutating[se.Sel.Name] {
+				mut = true
+			}
+			return !mut
+		})
+		if mut {
+			out = append(out, n)
+		}
+	}
+	sort.Strings(out)
+	return out
+}
+
 func parseKeys(list []string) (map[funcKey]bool, map[funcKey]bool) {
 	m := map[funcKey]bool{}
 	connOnly := map[funcKey]bool{}
@@ -523,12 +609,33 @@ func main() {
 	clockSites := 0
 	osSites := 0
 	clockNames := map[string]bool{"Now": true, "Since": true, "Until": true}
+	var closureFuncs []string
 
 	dirList := make([]string, 0, len(dirs))
 	for d := range dirs {
 		dirList = append(dirList, d)
 	}
 	sort.Strings(dirList)
+
+	// R2 closure: a function reached from an R2 function by calls inside the same package, and which
+	// itself creates, opens for writing, renames or removes files, is rerouted too (the names verifos
+	// provides only). On the pinned tree the closure adds nothing; it is there so that a file operation
+	// moved into a new helper does not fall out of the simulated file system's sight.
+	osClosure := map[funcKey]bool{}
+	for _, dir := range dirList {
+		has := false
+		for k := range osF {
+			if k.dir == dir {
+				has = true
+			}
+		}
+		if !has {
+			continue
+		}
+		for _, n := range osCalleeClosure(filepath.Join(*repo, dir), dir, osF) {
+			osClosure[funcKey{dir, n}] = true
+		}
+	}
 
 	for _, dir := range dirList {
 		abs := filepath.Join(*repo, dir)
@@ -585,6 +692,13 @@ func main() {
 						osSites += n
 						usedOS = true
 						changed = true
+					}
+				} else if osClosure[k] {
+					if n := rerouteSelectors(fd, "os", "verifos", osClosureNames); n > 0 {
+						osSites += n
+						usedOS = true
+						changed = true
+						closureFuncs = append(closureFuncs, k.dir+":"+k.name)
 					}
 				}
 				// "Recv.*": every exported method of the receiver
@@ -671,7 +785,7 @@ func main() {
 		fail("%v", err)
 	}
 	sort.Strings(labels)
-	lb, _ := json.Marshal(map[string]any{"points": labels, "clock_sites": clockSites, "os_sites": osSites, "files": len(replace), "missing_point_funcs": missing})
+	lb, _ := json.Marshal(map[string]any{"points": labels, "clock_sites": clockSites, "os_sites": osSites, "files": len(replace), "missing_point_funcs": missing, "os_closure_funcs": closureFuncs})
 	_ = os.WriteFile(filepath.Join(*out, "instrument.json"), lb, 0o644)
 	fmt.Printf("instrument: %d files, %d points, %d clock sites, %d os sites\n", len(replace), len(labels), clockSites, osSites)
 }
